@@ -15,6 +15,7 @@
 package eventlog
 
 import (
+	"bytes"
 	"encoding/binary"
 	"encoding/hex"
 	"errors"
@@ -213,10 +214,18 @@ func (cel *CryptoAgileLog) Unmarshal(r io.Reader) error {
 		return err
 	}
 	for {
-		evt := &TCGPCREvent2{}
-		if err := littleRead(r, "Event", evt); err != nil {
-			if errors.Is(err, io.EOF) {
+		// The log ends cleanly only between events: look for one more byte before starting an event.
+		var first [1]byte
+		if _, err := io.ReadFull(r, first[:]); err != nil {
+			if err == io.EOF {
 				return nil
+			}
+			return err
+		}
+		evt := &TCGPCREvent2{}
+		if err := littleRead(io.MultiReader(bytes.NewReader(first[:]), r), "Event", evt); err != nil {
+			if errors.Is(err, io.EOF) {
+				return fmt.Errorf("event log ends inside event %d: %v", len(cel.Events), err)
 			}
 			return err
 		}
